@@ -336,7 +336,8 @@ def check_C20(run, replay=None):
             else:
                 defs.append("Definition %so%d : registry := %s." % (px, j, cregistry(r["result"]["ok"])))
                 obs.append("(Some %so%d)" % (px, j))
-        entries.append(("synth", c, "verdict_synth %sthe_dump %sedge_list %sedge_flags %sreal_registry %scrates %s" % (px, px, px, px, px, clist(obs)), defs))
+        defs.append("Definition %sserde : registry := %s." % (px, cregistry(c.get("serde_expected", {}))))
+        entries.append(("synth", c, "verdict_synth %sthe_dump %sedge_list %sedge_flags %sreal_registry %sserde %scrates %s" % (px, px, px, px, px, px, clist(obs)), defs))
 
     nsh = 16 if len(entries) > 64 else 4
     shards = [entries[i::nsh] for i in range(nsh)]
@@ -407,7 +408,7 @@ def check_C20(run, replay=None):
                        "(affine mod 2^32 / xor / dense permutation) through a serde adapter on the Id newtype + external crate renumbering + shuffled JSON map orders}; the dependent crates are "
                        "loaded in whatever order run() asks (hash order varies per run, orders seen are recorded); plus the real format() on permuted sub-multisets of each description's edges "
                        "(permutation / subset / one edge dropped / duplicates / neighbourhood / reversed); plus random synthetic descriptions (an App with Event/ViewModel/optional Effect, 3-9 types, optional dependency crate, "
-                       "serde skip/rename/rename_all/serde_bytes, unit/empty/all-skipped shapes, same-named types, Range fields) lowered to rustdoc_types::Crate, each run untransformed (dumped, model-checked) and 3/5 times transformed. A case is counted when (kind, fixture, case seed, picks) is distinct; identity cases are trivial.")
+                       "serde skip/rename/rename_all/serde_bytes, unit/empty/all-skipped shapes, same-named types, Range fields) lowered to rustdoc_types::Crate, each run untransformed (dumped, model-checked, every container whose serde shape is unambiguous compared with what serde's derive describes, computed from the generator's spec) and 3/5 times transformed. A case is counted when (kind, fixture, case seed, picks) is distinct; identity cases are trivial.")
     run.cov["samples"] = [slim({k: v for k, v in c.items() if k not in ("result", "runs", "pick_edges")}) for c in (tr_rows[12:14] + ed_rows[:2] + sy_rows[:1])]
     run.extra["distribution"] = {"cases_per_kind": dict(hist), "known_class_hits": dict(classes), "synthetic_invalid": len(invalid_synth), "transform_and_edge_styles": dict(styles),
                                  "distinct_crate_load_orders_seen": {f: len(s) for f, s in load_orders.items()},
